@@ -39,6 +39,13 @@ func genConc(g *sim.Stream, tier string) *concProg {
 	if tier == "thorough" {
 		maxM = 40
 	}
+	if raceBuild {
+		// phase R: larger message counts, real parallelism
+		maxM = 60
+		if tier == "thorough" {
+			maxM = 400
+		}
+	}
 	p.S = g.Range(1, 4)
 	p.R = g.Range(1, 4)
 	p.Cap = g.Intn(9)
@@ -272,7 +279,8 @@ func init() {
 		Run:      runC10,
 		Level:    "exploration",
 		Rule: "one run = one generated producer/consumer program (1..4 senders, 0..4 receivers, buffer 0..8, all spawn/send/receive forms) executed under one seeded schedule; " +
-			"non-trivial = at least one preemption (the scheduler switched away from a task that could have continued); distinct = distinct hash of the (task, site) sequence",
+			"phase R (binary built with -race, larger message counts): a seeded serial prefix, then all tasks released together; the same history oracles plus the race detector; " +
+			"non-trivial = at least one preemption (the scheduler switched away from a task that could have continued) or a parallel window; distinct = distinct hash of the (task, site) sequence and program",
 		Real: []string{"risor.Eval", "parser", "compiler", "vm (eval loop, Clone, cloneCallAsync)", "object.Chan", "object.Thread", "object.Spawn", "builtins (spawn, chan, close, try)"},
 		Stub: []string{"scheduler (sim)", "host builtins pstart/sinv/sent/rinv/emit/rend/cinv/closed/waited"},
 		Assumptions: []string{
@@ -312,11 +320,28 @@ func runC10(rc *fw.RunCtx) {
 	ctx, cancel := context.WithCancel(context.Background())
 	out := evalTask(s, "main", ctx, prog.Src, baseOpts(extra))
 	s.Until = func() bool { return out.Done && len(aliveExcept(s, "vm.watcher")) == 0 }
+	prefix := -1
+	if raceBuild {
+		// phase R (as in C09): seeded serial prefix, then a parallel window
+		prefix = stratStream.Intn(400)
+		if stratStream.Chance(1, 4) {
+			prefix = 0
+		}
+		s.MaxSteps = 1 << 30
+		s.AtStep(prefix, "release-parallel-window", func() {
+			rc.Hit("fault_parallel_window")
+			s.FreeRun()
+		})
+	}
 	verdict := s.Run()
 	mainDone := out.Done
 	alive := aliveExcept(s, "vm.watcher")
 	stuck := s.Shutdown(cancel)
 	rc.AbsorbSim(s, strat.Name())
+	rc.Digest ^= sim.HashString(prog.Src)
+	if prefix >= 0 {
+		rc.NonTrivial = true
+	}
 	rc.Count("stuck_after_shutdown", len(stuck))
 	rc.Hit("verdict_" + verdict.String())
 	rc.Sample = map[string]any{
@@ -327,6 +352,24 @@ func runC10(rc *fw.RunCtx) {
 		"result":   out.String(),
 	}
 
+	if raceBuild {
+		rc.Hit("phase_R")
+		for _, rep := range newRaceReports() {
+			cls, inRisor := raceClass(rep)
+			if !inRisor {
+				rc.Hit("race_reports_outside_risor")
+				continue
+			}
+			if len(rep) > 1800 {
+				rep = rep[:1800] + "…"
+			}
+			rc.Sample["race_report"] = rep
+			rc.Violate(cls, "race detector report during this run (parallel window from step %d):\n%s", prefix, rep)
+			return
+		}
+	} else {
+		rc.Hit("phase_S")
+	}
 	if verdict == sim.StepLimit {
 		rc.Inconclusive = "steplimit"
 		return
